@@ -181,6 +181,11 @@ class Verifier(Exec):
         for f in self.prog.funcs:
             if f.endswith(').' + name):
                 return f
+        if '.' in name:
+            t_, m_ = name.rsplit('.', 1)
+            for f in self.prog.funcs:
+                if f.endswith('.%s).%s' % (t_, m_)):
+                    return f
         return None
 
     def lookup_global(self, st, name):
@@ -674,6 +679,8 @@ class Verifier(Exec):
             if target is None:
                 continue
             env[name] = ('lazy', (lambda n_: (lambda st_: self.load_local(st_, n_)))(target))
+            if target not in self.cellset:
+                env['&' + name] = ('lazy', (lambda n_: (lambda st_: st_.regs.get(n_)))(target))
         for p in self.fn['params']:
             if p['name'] not in env:
                 env[p['name']] = ('lazy', (lambda n_: (lambda st_: st_.regs['param:' + n_]))(p['name']))
@@ -683,7 +690,10 @@ class Verifier(Exec):
         return env
 
     def deref_free(self, st, n):
+        # a captured variable: the closure holds its address, the source name denotes its value
         v = st.regs['free:' + n]
+        if isinstance(v, PtrV) and v.term is not None:
+            return self.load(st, ('obj', v.elem, v.term))
         return v
 
     def load_local(self, st, n):
@@ -701,7 +711,7 @@ class Verifier(Exec):
         for p in self.fn['params']:
             env[p['name']] = ('lazy', (lambda n_: (lambda st_: self.param_vals[n_]))(p['name']))
         for p in self.fn['freevars']:
-            env[p['name']] = ('lazy', (lambda n_: (lambda st_: st_.regs['free:' + n_]))(p['name']))
+            env[p['name']] = ('lazy', (lambda n_: (lambda st_: self.deref_free(st_, n_)))(p['name']))
         return env
 
     def eval_clause(self, clause, st, env, old=None, what=''):
@@ -768,10 +778,17 @@ class Verifier(Exec):
             if e[0] == 'sel' and not loc.startswith('*'):
                 fld = e[2]
                 e = e[1]
-            v = ev.ev(e)
+            if e[0] == 'id' and not loc.startswith('*') and fld is None and ('free:' + e[1]) in st.regs:
+                v = st.regs['free:' + e[1]]        # a captured variable itself
+            else:
+                v = ev.ev(e)
             if not isinstance(v, PtrV):
                 raise SpecError('modifies %s: expected pointer' % loc)
-            regs.append(('obj', self.tname(v.elem), self.scalar_term(v), fld))
+            if fld is None and self.kind(v.elem) == 'struct' and any(self.kind(f_['type']) == 'struct' for f_ in self.struct_fields(v.elem)):
+                # a whole object: embedded structs are part of it
+                regs += [r_ for r_ in self.object_regions(v.elem, self.scalar_term(v)) if r_[0] == 'obj']
+            else:
+                regs.append(('obj', self.tname(v.elem), self.scalar_term(v), fld))
         return regs
 
     # ------------------------------------------------------------------ instruction semantics
@@ -885,6 +902,8 @@ class Verifier(Exec):
             v = self.load(st, a)
             if isinstance(v, Opaque) and a[0] == 'fld':
                 v = Opaque(v.term, v.tid, ('field', a[2]))
+            elif isinstance(v, Opaque) and ins['x'].get('k') == 'freevar':
+                v = Opaque(v.term, v.tid, ('field', ins['x']['n']))      # a function value held in a captured variable
             if a[0] != 'cell' and self.addr_root(a)[0] != 'cell':
                 v = self.named(self.regprefix(ins), v)
                 self.assume_valid(v, ins['type'])
@@ -1502,6 +1521,9 @@ class Verifier(Exec):
             elif isinstance(r, SliceV):
                 pv = self.pure_slice(pre_state, callee, args, i, r.elem)
                 self.ctx.assume(implies(st.pc, and_(eq(r.arr, pv.arr), eq(r.off, pv.off), eq(r.len, pv.len))))
+            elif isinstance(r, StrV):
+                pv = self.pure_slice(pre_state, callee, args, i, self.byte_tid())
+                self.ctx.assume(implies(st.pc, and_(eq(r.arr, pv.arr), eq(r.off, pv.off), eq(r.len, pv.len))))
         self.trusted.add('%s is deterministic (pure): results are a function of the argument values' % short_fn(callee))
 
     def inline_call(self, st, ins, callee, args, bindings):
@@ -1573,9 +1595,9 @@ class Verifier(Exec):
         """addresses returned by a callee are allocated (< alloc after the call)"""
         c = self.ctx
         if isinstance(v, (SliceV, StrV)):
-            c.assume(lt(v.arr, st.alloc))
+            c.assume(self.existed_v(v.arr, st.alloc))
         elif isinstance(v, PtrV) and v.term is not None:
-            c.assume(lt(v.term, st.alloc))
+            c.assume(self.existed_v(v.term, st.alloc))
         elif isinstance(v, StructV):
             for x in v.f.values():
                 self.bound_new_addrs(x, None, st)
@@ -2195,9 +2217,16 @@ class Verifier(Exec):
                 v = Opaque(v.term, v.tid, ('field', p['name']))
             st.regs['param:' + p['name']] = v
             self.param_vals[p['name']] = v
+        fvs_ = []
         for p in fn['freevars']:
             v = self.fresh_value('fv:' + p['name'], p['type'])
             st.regs['free:' + p['name']] = v
+            if isinstance(v, PtrV) and v.term is not None:
+                # captured variables are distinct, allocated objects
+                c.assume(lt(ZERO, v.term))
+                for w in fvs_:
+                    c.assume(ne(v.term, w))
+                fvs_.append(v.term)
         spec = self.spec
         shape = self.opts.get('shape')
         if shape:
@@ -2632,13 +2661,14 @@ class Verifier(Exec):
             new = c.fresh(tag + 'f:' + name, old.sort)
             st.heap[name] = new
             c.heap_bound[new.val] = st.alloc
+            # what belongs to objects that existed before `base` is kept (field and element addresses count by the
+            # object they lie in)
             if name.startswith(('HS:', 'INIT:')):
                 a, k = const('a!', INT), const('k!', INT)
-                c.assume(forall([a], implies(lt(a, base), eq(select(new, a), select(old, a))), [select(new, a)]))
-                # negative (derived) addresses: sub-objects keep contents if their root is old. approximated: a < base covers derived (<0) too.
+                c.assume(forall([a], implies(self.existed(a, base), eq(select(new, a), select(old, a))), [select(new, a)]))
             else:
                 p = const('p!', INT)
-                c.assume(forall([p], implies(lt(p, base), eq(select(new, p), select(old, p))), [select(new, p)]))
+                c.assume(forall([p], implies(self.existed(p, base), eq(select(new, p), select(old, p))), [select(new, p)]))
 
     def back_edge(self, h, st):
         lp, spec, env, dec0, regions, invs = self.loopctx[h]
